@@ -97,10 +97,10 @@ Lemma kind_other : forall t, wf_inner t = true ->
   match t with TRef _ (TSlice _) => False | TSlice _ => False | _ => True end ->
   snd (collect_derefs t) = KOther.
 Proof.
-  induction t as [b|m t' IH|e IH]; intros W NS; [reflexivity| |contradiction].
+  induction t as [b|m t' IH|e IH]; intros W NS; [destruct b; reflexivity| |contradiction].
   cbn [collect_derefs].
   destruct t' as [b|m' x|e].
-  - cbn. reflexivity.
+  - destruct b; cbn; reflexivity.
   - assert (K : snd (collect_derefs (TRef m' x)) = KOther).
     { apply IH.
       - cbn [wf_inner] in W. destruct x; try discriminate;
@@ -352,12 +352,16 @@ Lemma mismatch_value : forall i k t p v m,
   (is_pat_lit p = true -> knows_debug t = true) ->       (* literals are only written for Debug types *)
   (k = AKLitStr -> knows_debug t = true) ->              (* string literals: str / String parameters *)
   stmt_compiles k t p = true ->
+  (t = TB BImp -> p = SWild) ->                          (* an Impossible input can only be matched by `_` *)
   diag_stmt i k t p v = Some m ->
   mm_actual m = try_debug t v.
 Proof.
-  intros i k t p v m W L S C D.
+  intros i k t p v m W L S C Imp D.
+  assert (IV : input_value t v = v).
+  { destruct t as [b| |]; try reflexivity. destruct b; try reflexivity.
+    rewrite (Imp eq_refl) in D. discriminate. }
   apply diag_stmt_some in D. destruct D as (A & _ & ->).
-  unfold try_debug. rewrite (arg_resolution_wf t W).
+  unfold try_debug. rewrite IV, (arg_resolution_wf t W).
   destruct (is_pat_lit p) eqn:Lp.
   - now rewrite (L eq_refl).
   - assert (C' : res_compiles (resolve (arg_expr_type k t)) = true).
@@ -406,7 +410,8 @@ Definition position_ok (t : pty) (p : spat) : Prop :=
   wf_param t = true /\
   (is_pat_lit p = true -> knows_debug t = true) /\
   (pat_kind p = AKLitStr -> knows_debug t = true) /\
-  stmt_compiles (pat_kind p) t p = true.
+  stmt_compiles (pat_kind p) t p = true /\
+  (t = TB BImp -> p = SWild).
 
 Lemma mismatch_values_single : forall ts ps vs m,
   (forall j t p, nth_error ts j = Some t -> nth_error ps j = Some p -> position_ok t p) ->
@@ -418,8 +423,8 @@ Proof.
   destruct H as (j & k & t & p & v & I & Hk & Ht & Hp & Hv & D).
   cbn [Nat.add] in I, D. rewrite I.
   rewrite (map_nth_error pat_kind j ps Hp) in Hk. inversion Hk; subst k.
-  destruct (OK j t p Ht Hp) as (W & L & S & C).
-  rewrite (mismatch_value j (pat_kind p) t p v m W L S C D).
+  destruct (OK j t p Ht Hp) as (W & L & S & C & Imp).
+  rewrite (mismatch_value j (pat_kind p) t p v m W L S C Imp D).
   now apply debug_inputs_nth.
 Qed.
 
